@@ -28,14 +28,18 @@ Section Kauri.
   Variable c : kcfg.
   Let members := kc_members c.
 
-  Lemma kverify_spec : forall h l, kverify members h l = true <->
-    l <> [] /\ NoDup (map s_lab l) /\ Forall (fun s => verify_single members h s = true) l.
+  Definition kv (h : hash) (l : list ssig) : bool := kverify_c c h l.
+
+  Lemma kverify_spec : forall h l, kv h l = true <->
+    (l <> [] \/ kc_bls c = true) /\ NoDup (map s_lab l) /\ Forall (fun s => verify_single members h s = true) l.
   Proof.
-    intros h l. unfold kverify. rewrite andb_true_iff, nodupbN_NoDup. unfold verify_sigs.
-    destruct l as [|s l].
-    - split; [intros [H _]; discriminate|intros [H _]; contradiction].
-    - rewrite forallb_forall, Forall_forall. split.
-      + intros [H1 H2]. repeat split; auto. discriminate.
+    intros h l. unfold kv, kverify_c, kverify. fold members. destruct l as [|s l].
+    - cbn. rewrite andb_true_r, orb_false_r. split.
+      + intros H. repeat split; auto; constructor.
+      + intros [[H|H] _]; [contradiction|assumption].
+    - rewrite andb_false_r. cbn [orb]. rewrite andb_true_iff, nodupbN_NoDup. unfold verify_sigs.
+      rewrite forallb_forall, Forall_forall. split.
+      + intros [H1 H2]. repeat split; auto. left. discriminate.
       + intros [_ [H2 H1]]. split; auto.
   Qed.
 
@@ -53,8 +57,8 @@ Section Kauri.
   Qed.
 
   (* combining a verifying contribution with a verifying, disjoint aggregate *)
-  Lemma combine_pair : forall h l a, kverify members h l = true -> kverify members h a = true ->
-    can_merge l a = true -> combine [l; a] = Some (l ++ a) /\ kverify members h (l ++ a) = true.
+  Lemma combine_pair : forall h l a, kv h l = true -> kv h a = true ->
+    can_merge l a = true -> combine [l; a] = Some (l ++ a) /\ kv h (l ++ a) = true.
   Proof.
     intros h l a Hl Ha Hm. apply kverify_spec in Hl. apply kverify_spec in Ha.
     destruct Hl as [Hl0 [Hl1 Hl2]]. destruct Ha as [Ha0 [Ha1 Ha2]].
@@ -64,33 +68,33 @@ Section Kauri.
     - unfold combine. cbn [length Nat.ltb Nat.leb combine_from].
       rewrite (sig_append_ok l []) by assumption. cbn [app]. now rewrite (sig_append_ok a l).
     - apply kverify_spec. repeat split; auto.
-      + destruct l; [contradiction|discriminate].
+      + destruct Hl0 as [Hl0|Hl0]; [left; destruct l; [contradiction|discriminate]|now right].
       + apply Forall_app. now split.
   Qed.
 
   (* the aggregate held by a node verifies for the node's block *)
   Definition kinv (st : kstate) : Prop :=
-    match ks_agg st with Some a => kverify members (ks_hash st) a = true | None => True end.
+    match ks_agg st with Some a => kv (ks_hash st) a = true | None => True end.
 
   (* a replica's own vote is genuine *)
   Definition kev_ok (e : kevent) : Prop :=
-    match e with KBegin h _ own => kverify members h own = true | _ => True end.
+    match e with KBegin h _ own => kv h own = true | _ => True end.
 
   Definition out_ok (h : hash) (o : kout) : Prop :=
     match o with
-    | OSend _ (Some a) => kverify members h a = true
+    | OSend _ (Some a) => kv h a = true
     | OSend _ None => True
-    | OQC q => q_hash q = h /\ kverify members h (q_sigs q) = true /\ kqsize c <= length (q_sigs q)
+    | OQC q => q_hash q = h /\ kv h (q_sigs q) = true /\ kqsize c <= length (q_sigs q)
     end.
 
   (* the acceptance test of onContributionRecv / mergeContribution, and the aggregate it produces *)
   Definition accepted (st : kstate) (v : view) (sg : option (list ssig)) (l a : list ssig) : Prop :=
     v = ks_view st /\ In (ks_hash st) (kc_blocks c) /\ sg = Some l /\ ks_agg st = Some a /\
-    kverify members (ks_hash st) l = true /\ can_merge l a = true.
+    kv (ks_hash st) l = true /\ can_merge l a = true.
 
   Lemma merge_spec : forall st sg st1 o, kinv st -> merge c st sg = Some (st1, o) ->
     ks_hash st1 = ks_hash st /\ ks_view st1 = ks_view st /\ ks_sent st1 = ks_sent st /\ ks_senders st1 = ks_senders st /\
-    exists l, sg = Some l /\ kverify members (ks_hash st) l = true /\ In (ks_hash st) (kc_blocks c) /\
+    exists l, sg = Some l /\ kv (ks_hash st) l = true /\ In (ks_hash st) (kc_blocks c) /\
       match ks_agg st with
       | None => ks_agg st1 = Some l /\ o = []
       | Some a => can_merge l a = true /\ ks_agg st1 = Some (l ++ a) /\
@@ -100,7 +104,7 @@ Section Kauri.
     intros st sg st1 o Hi H. unfold merge in H.
     destruct (memN (ks_hash st) (kc_blocks c)) eqn:Eb; cbn [negb] in H; [|discriminate].
     apply memN_In in Eb. destruct sg as [l|]; [|discriminate].
-    destruct (kverify (kc_members c) (ks_hash st) l) eqn:Ev; cbn [negb] in H; [|discriminate].
+    destruct (kverify_c c (ks_hash st) l) eqn:Ev; cbn [negb] in H; [|discriminate].
     unfold kinv in Hi. destruct (ks_agg st) as [a|] eqn:Ea.
     - destruct (can_merge l a) eqn:Em; cbn [negb] in H; [|discriminate].
       destruct (combine_pair _ _ _ Ev Hi Em) as [Ec _]. rewrite Ec in H. inversion H; subst. cbn.
@@ -176,7 +180,7 @@ Section Kauri.
       + destruct Hagg as [_ Eo]. subst o1. destruct Hq.
     - intros [l [a [[Ev [Hb [Es [Ea [Hv Hm]]]]] [Hle Eq]]]]. subst v sg q.
       rewrite N.eqb_refl. cbn [negb]. unfold merge. apply memN_In in Hb. rewrite Hb. cbn [negb].
-      fold members. rewrite Hv, Ea. cbn [negb]. rewrite Hm. cbn [negb].
+      unfold kv in Hv. rewrite Hv, Ea. cbn [negb]. rewrite Hm. cbn [negb]. fold (kv (ks_hash st) l) in Hv.
       unfold kinv in Hi. rewrite Ea in Hi. destruct (combine_pair _ _ _ Hv Hi Hm) as [Ec _]. rewrite Ec.
       assert (El : Nat.leb (kqsize c) (length (l ++ a)) = true) by (apply Nat.leb_le; rewrite app_length; lia).
       rewrite El. destruct (is_subset _ _); cbn [snd]; [apply in_or_app; left|]; now left.
@@ -192,7 +196,7 @@ Section Kauri.
   Qed.
 
   (* what "verifies" means: a quorum certificate from the tree carries distinct genuine member signatures *)
-  Lemma kverify_genuine : forall h l, kverify members h l = true ->
+  Lemma kverify_genuine : forall h l, kv h l = true ->
     NoDup (map s_lab l) /\ forall s, In s l -> In (s_lab s) members /\ s_real s = Some (s_lab s, h).
   Proof.
     intros h l H. apply kverify_spec in H. destruct H as [_ [Hn Hf]]. split; [assumption|].
